@@ -256,6 +256,15 @@ def run_shard(params):
                 struct.pack_into("<i", f, ri + poff, vec["pos"])
                 f[ro + eB] = 0
                 struct.pack_into("<h", f, ro + voff, vec["prev"])
+                if nv % 7 == 3:
+                    # the frame comes back with a wrong working counter in
+                    # its write datagrams (a terminal missed it): the law
+                    # does not depend on that
+                    for start, stop, cmd in rig.sg.packet.on_the_fly:
+                        w_, = struct.unpack_from("<H", f, 14 + stop - 2)
+                        struct.pack_into("<H", f, 14 + stop - 2,
+                                         (w_ + 1) & 0xffff)
+                    res.count("vectors_on_a_frame_with_a_wrong_counter")
                 ret, out, _ = rig.run_k(bytes(f))
                 nv += 1
                 clamp = (mid != desired or v != mid)
